@@ -432,8 +432,11 @@ ListUploads(st, cfg, op) ==    \* complete listing (max = 0) or first page; op: 
                     trunc |-> lim < Len(flat)])
 
 \* ---- C08: one upload attempt, classified ----
+\* well-formed Content-MD5 values that are not the digest of the body: of the body plus one byte ("wrong"), sixteen
+\* zero bytes, sixteen 0xFF bytes, the right digest with its last bit flipped
+WrongDigests == {"wrong", "zero", "ones", "flip"}
 \* op: target \in {"put","chunked","post","part"}, b, k, body, meta,
-\*     digest \in {"none","good","wrong","malformed","short","empty"}   (Content-MD5)
+\*     digest \in {"none","good","malformed","short","empty"} \cup WrongDigests   (Content-MD5)
 \*     length \in {"exact","shorter","longer","missing","negative","nonnumeric"}
 \*     keyClass \in {"ok","max","over"}   (max: exactly 1024 bytes, over: 1025)
 \*     metaClass \in {"ok","over"}         (over: far above the configured limit)
@@ -449,7 +452,7 @@ UploadProblems(cfg, op) ==
         THEN (IF op.target = "part" THEN {"MissingContentLength"} ELSE {"*400"}) ELSE {})
 \cup (IF op.keyClass = "over" THEN {"KeyTooLongError"} ELSE {})
 \cup (IF cfg.integrity /\ op.digest \in {"malformed", "short", "empty"} THEN {"InvalidDigest"} ELSE {})
-\cup (IF cfg.integrity /\ op.digest = "wrong" THEN {"BadDigest"} ELSE {})
+\cup (IF cfg.integrity /\ op.digest \in WrongDigests THEN {"BadDigest"} ELSE {})
 \* (C08 requires a refusal, not a particular code: a body that ends before its first byte is answered
 \* with InternalError by the key-value backends)
 \cup (IF op.length \in {"shorter", "longer"} THEN {"IncompleteBody", "!"} ELSE {})
